@@ -131,6 +131,7 @@ type seqState struct {
 	mode  string
 	names []string
 	kinds []string // when non-empty, only these operation kinds are generated
+	joinKey string   // the shared key column of the c03 mode
 	script  []string // when non-empty, the next steps are exactly these kinds, each on the most recent frame
 	lastBy  []string // the column list and direction of the last generated sort (reused by the script's "resort")
 	lastAsc bool
@@ -414,6 +415,9 @@ func (s *seqState) stepOnce() {
 		if _, ok := g.Columns["k"]; ok && r.Chance(60) {
 			key = "k"
 		}
+		if _, ok := g.Columns[s.joinKey]; ok && s.joinKey != "" && r.Chance(70) {
+			key = s.joinKey
+		}
 		jk := r.Intn(4)
 		e.Tok("join")
 		e.Int(jk)
@@ -486,9 +490,12 @@ func (s *seqState) stepOnce() {
 				}
 			}
 		}
+		if _, ok := f.Columns["ts"]; ok && r.Chance(60) {
+			col = "ts"
+		}
 		freq := Pick(r, []string{"Y", "M", "D", "H", "T", "S"})
 		if bad && r.Chance(40) {
-			freq = Pick(r, []string{"Q", "", "y", "W"})
+			freq = Pick(r, []string{"Q", "", "y", "W", "0T", "0D", "00H", "15T", "1D", "-1T", "2"})
 		}
 		agg := r.Intn(4)
 		e.Tok("resample")
@@ -724,6 +731,7 @@ func genSeq(r *Rng, mode string, steps int) *Enc {
 			// integer keys that float64 cannot tell apart
 			keyAlpha = []any{int64(1) << 53, int64(1)<<53 + 1, uint64(math.MaxUint64), uint64(math.MaxUint64 - 1), int64(1)<<53 + 2, nil}
 		}
+		kn := Pick(r, []string{"k", "k", "k", "k", "city, state", "a,b", " k", "k|j"})
 		mk := func(payload []string) *DF {
 			n := r.SmallN()
 			if r.Chance(10) {
@@ -735,7 +743,7 @@ func genSeq(r *Rng, mode string, steps int) *Enc {
 				kd[i] = Pick(r, keyAlpha[:r.Range(2, len(keyAlpha))])
 			}
 			if !r.Chance(5) {
-				df.Columns["k"] = &dataframe.Column[any]{Name: "k", Data: kd}
+				df.Columns[kn] = &dataframe.Column[any]{Name: kn, Data: kd}
 			}
 			for _, p := range payload[:r.Range(0, len(payload))] {
 				df.Columns[p] = &dataframe.Column[any]{Name: p, Data: r.Column(n, r.Kind())}
@@ -747,7 +755,8 @@ func genSeq(r *Rng, mode string, steps int) *Enc {
 			right = []string{"a", "d"}
 		}
 		s.pool = []*DF{mk(left), mk(right)}
-		s.names = []string{"k", "a", "c", "zz"}
+		s.names = []string{kn, "a", "c", "zz"}
+		s.joinKey = kn
 	case "c06":
 		s.kinds = []string{"sort", "sort", "sort", "fillna"}
 		steps = r.Range(1, 3)
@@ -788,8 +797,14 @@ func genSeq(r *Rng, mode string, steps int) *Enc {
 			}
 			df.Columns[c] = &dataframe.Column[any]{Name: c, Data: d}
 		}
+		if r.Chance(8) && n > 0 {
+			// a column whose name is another column's name with a leading '-'
+			if _, ok := df.Columns["a"]; ok {
+				df.Columns["-a"] = &dataframe.Column[any]{Name: "-a", Data: r.Column(n, Pick(r, []colKind{kInt, kFloat, kStr}))}
+			}
+		}
 		s.pool = []*DF{df}
-		s.names = []string{"a", "b", "c", "zz"}
+		s.names = []string{"a", "b", "c", "zz", "-a"}
 	case "c07":
 		s.kinds = []string{"dedup", "dedupin", "dedup", "dedupin", "setcell", "fillna"}
 		steps = r.Range(1, 3)
@@ -914,6 +929,15 @@ func genSeq(r *Rng, mode string, steps int) *Enc {
 			if r.Chance(20) && f.Ncols() > 0 {
 				n := f.Nrows()
 				f.Columns["index"] = &dataframe.Column[any]{Name: "index", Data: r.Column(n, kInt)}
+			}
+			if r.Chance(8) && f.Ncols() > 0 {
+				// timestamps as TEXT: a time-series helper given this column must refuse it and leave it as it is
+				n := f.Nrows()
+				d := make([]any, n)
+				for i := range d {
+					d[i] = Pick(r, []string{"2024-02-29T12:30:00Z", "2024-03-01T00:00:00Z", "2023-12-31T23:59:59+02:00"})
+				}
+				f.Columns["ts"] = &dataframe.Column[any]{Name: "ts", Data: d}
 			}
 			s.pool = append(s.pool, f)
 		}
